@@ -26,6 +26,11 @@ struct verif_in {
 	int64_t c_size, c_mtime, f_size, f_mtime;
 	int c_nsec, f_nsec;
 	int close_ret, rename_ret, open_ret, utime_ret;
+	/* open region */
+	int create_ret, created, truncate_ret, expected_missing;
+	unsigned oflag;
+	int64_t o_size, o_mtime; int o_nsec;
+	unsigned of0, oe0, ou0, or0;
 };
 VERIF_DECLARE_IN
 
@@ -138,5 +143,102 @@ void h_file_post(void)
 		VERIF_ASSERT(HANDLE[0].file != &FL, "the file is closed once its last block is done");
 	VERIF_CANARY();
 }
+
+
+/*
+ * Opening the file of a block in check / fix (state_check_process, region "if the file is closed or different than the current
+ * one" up to "read from the file"; REAL handle_close, everything else routed to recording stubs):
+ *   - only fix, and only for a file NOT excluded by the filters, opens for writing / creates (handle_create); every other case
+ *     opens read-only, and a file already known to be missing is not opened at all
+ *   - a file that cannot be opened enters the failed set as bad and is remembered as missing
+ *   - at its first open a file whose size or time-stamp differs from the record is flagged unsynced
+ *   - a file larger than recorded is an error; it is cut to the recorded size only by fix, only if selected
+ *   - no step touches memory it does not own (a failing close of ANOTHER file included)
+ */
+#ifdef VERIF_OPEN_REGION
+static unsigned g_create, g_trunc, g_open2;
+static int o_create(struct snapraid_handle *h, struct snapraid_file *file, int mode)
+{
+	(void)mode; ++g_create;
+	if (IN.create_ret) return -1;
+	h->file = file; h->f = 5; h->created = IN.created != 0;
+	h->st.st_size = IN.o_size; h->st.st_mtime = IN.o_mtime; h->st.st_mtim.tv_nsec = IN.o_nsec;
+	return 0;
+}
+static int o_open(struct snapraid_handle *h, struct snapraid_file *file, int mode, fptr *out, fptr *out_missing)
+{
+	(void)mode; (void)out; (void)out_missing; ++g_open2;
+	if (IN.open_ret) return -1;
+	h->file = file; h->f = 5; h->created = 0;
+	h->st.st_size = IN.o_size; h->st.st_mtime = IN.o_mtime; h->st.st_mtim.tv_nsec = IN.o_nsec;
+	return 0;
+}
+static int o_truncate(struct snapraid_handle *h, struct snapraid_file *file) { (void)h; (void)file; ++g_trunc; return IN.truncate_ret ? -1 : 0; }
+static void o_log(const char *format, ...) { (void)format; }
+#define handle_create o_create
+#define handle_open o_open
+#define handle_truncate o_truncate
+#define esc_tag p_esc
+#define log_expected o_log
+#include "region_check_open.c"
+#undef handle_create
+#undef handle_open
+#undef handle_truncate
+#undef esc_tag
+#undef log_expected
+
+void h_check_open(void)
+{
+	static struct snapraid_state ST;
+	static struct failed_struct FAILED[4];
+	static unsigned char BLK[64];
+	unsigned failed_count, error, unrec, recov;
+	int bailed = 0, skipped = 0, excluded, writable, differs, larger, selected;
+	VERIF_INPUTS();
+	VERIF_ASSUME(IN.of0 <= 2 && IN.oe0 < 100000 && IN.ou0 < 100000 && IN.or0 < 100000);
+	VERIF_ASSUME(IN.handle_has_file >= 0 && IN.handle_has_file <= 2);
+	VERIF_ASSUME(IN.o_nsec >= 0 && IN.o_nsec < 1000000000 && IN.o_size >= 0 && IN.f_size >= 0);
+	ST.opt.syncedonly = IN.syncedonly != 0;
+	ST.opt.expected_missing = IN.expected_missing != 0;
+	FL.sub = NAME; OTHER.sub = NAME2;
+	FL.flag = IN.oflag & (FILE_IS_EXCLUDED | FILE_IS_MISSING | FILE_IS_OPENED | FILE_IS_UNSYNCED);
+	FL.size = IN.f_size; FL.mtime_sec = IN.f_mtime; FL.mtime_nsec = IN.f_nsec;
+	HANDLE[0].disk = &DK;
+	HANDLE[0].file = IN.handle_has_file == 1 ? &FL : IN.handle_has_file == 2 ? &OTHER : 0;
+	HANDLE[0].f = IN.handle_has_file ? 5 : -1;
+	if (IN.handle_has_file == 1) { HANDLE[0].st.st_size = IN.o_size; HANDLE[0].st.st_mtime = IN.o_mtime; HANDLE[0].st.st_mtim.tv_nsec = IN.o_nsec; }
+	g_create = g_trunc = g_open2 = g_sysclose = 0;
+	failed_count = IN.of0; error = IN.oe0; unrec = IN.ou0; recov = IN.or0;
+
+	region_check_open(&ST, IN.fix, 9, 0, HANDLE, &DK, &FL, 3, (struct snapraid_block *)BLK, FAILED, &failed_count, &error, &unrec, &recov, &bailed, &skipped);
+
+	excluded = (IN.oflag & FILE_IS_EXCLUDED) != 0;
+	writable = IN.fix && !excluded;
+	if (IN.handle_has_file == 1) {
+		VERIF_ASSERT(g_create == 0 && g_open2 == 0 && g_trunc == 0 && !bailed && !skipped && failed_count == IN.of0, "a file that is already open is used as it is");
+	} else {
+		VERIF_ASSERT(g_create == ((writable && !(IN.handle_has_file == 2 && IN.close_ret)) ? 1u : 0u), "only fix, and only for a file selected by the filters, opens for writing or creates a file");
+		if (!writable)
+			VERIF_ASSERT(g_create == 0 && g_trunc == 0, "check, and fix on an excluded file, never create or resize a data file");
+		if (!writable && !(IN.handle_has_file == 2 && IN.close_ret)) {
+			VERIF_ASSERT(g_open2 == ((IN.oflag & FILE_IS_MISSING) ? 0u : 1u), "a file already known to be missing is not opened again");
+			if ((IN.oflag & FILE_IS_MISSING) || IN.open_ret) {
+				VERIF_ASSERT(skipped && failed_count == IN.of0 + 1 && FAILED[IN.of0].is_bad == 1 && FAILED[IN.of0].file == &FL && FAILED[IN.of0].file_pos == 3 && FAILED[IN.of0].index == 0 && (FL.flag & FILE_IS_MISSING) && error == IN.oe0 + 1,
+					"a block of a file that cannot be opened enters the failed set as bad, is counted, and the file is remembered as missing");
+			}
+		}
+		if (!bailed && !skipped) {
+			differs = IN.o_size != IN.f_size || IN.o_mtime != IN.f_mtime || IN.o_nsec != IN.f_nsec;
+			if (!(IN.oflag & FILE_IS_OPENED) && !excluded)
+				VERIF_ASSERT(((FL.flag & FILE_IS_UNSYNCED) != 0) == (differs || (IN.oflag & FILE_IS_UNSYNCED)), "at its first open a file whose size or time-stamp differs from the record is flagged unsynced");
+			selected = !excluded && !(IN.syncedonly && (FL.flag & FILE_IS_UNSYNCED));
+			larger = !(IN.oflag & FILE_IS_OPENED) && selected && IN.o_size > IN.f_size;
+			VERIF_ASSERT(g_trunc == ((larger && IN.fix) ? 1u : 0u), "a file is cut to its recorded size only by fix, only at its first open, only if selected and larger than recorded");
+			VERIF_ASSERT(FL.flag & FILE_IS_OPENED, "the file is remembered as opened");
+		}
+	}
+	VERIF_CANARY();
+}
+#endif
 
 #include "verif_tail.h"
